@@ -258,6 +258,10 @@ func cmdASTFuzz(args []string) int {
 			bad += renameFuzz(base, *repo, *files, runAll)
 			continue
 		}
+		if kind == "renamelocals" {
+			bad += renameLocalsFuzz(base, *repo, list, runAll)
+			continue
+		}
 		for _, rel := range list {
 			abs := filepath.Join(*repo, rel)
 			src, err := os.ReadFile(abs)
@@ -601,7 +605,11 @@ func extractStatements(filename string, src []byte, pkgTypes *types.Package, inf
 func renameFuzz(base *Prog, repo, only string, runAll func(map[string][]byte) ([]string, string)) int {
 	bad := 0
 	for _, pk := range base.Pkgs {
-		if only != "" && !strings.Contains(","+only+",", ","+strings.TrimPrefix(strings.TrimPrefix(pk.PkgPath, modPath), "/")+",") {
+		rel := strings.TrimPrefix(strings.TrimPrefix(pk.PkgPath, modPath), "/")
+		if rel == "" {
+			rel = "."
+		}
+		if only != "" && !strings.Contains(","+only+",", ","+rel+",") {
 			continue
 		}
 		type site struct {
@@ -689,4 +697,99 @@ func renameFuzz(base *Prog, repo, only string, runAll func(map[string][]byte) ([
 		}
 	}
 	return bad
+}
+
+// renamelocals: every local variable, parameter, receiver and named result of a file is renamed at once.
+func renameLocalsFuzz(base *Prog, repo string, list []string, runAll func(map[string][]byte) ([]string, string)) int {
+	bad := 0
+	for _, rel := range list {
+		abs := filepath.Join(repo, rel)
+		var offs []int
+		names := map[int]string{}
+		for _, pk := range base.Pkgs {
+			collect := func(id *ast.Ident, obj types.Object) {
+				v, ok := obj.(*types.Var)
+				if !ok || v.IsField() || v.Pkg() != pk.Types || v.Parent() == pk.Types.Scope() || id.Name == "_" {
+					return
+				}
+				pos := pk.Fset.Position(id.Pos())
+				if pos.Filename != abs {
+					return
+				}
+				if _, seen := names[pos.Offset]; !seen {
+					offs = append(offs, pos.Offset)
+					names[pos.Offset] = id.Name
+				}
+			}
+			for id, obj := range pk.TypesInfo.Defs {
+				if obj != nil {
+					collect(id, obj)
+				}
+			}
+			for id, obj := range pk.TypesInfo.Uses {
+				collect(id, obj)
+			}
+			// the symbolic variable of a type switch: declared once (no object), used through one implicit object per clause
+			for node, obj := range pk.TypesInfo.Implicits {
+				cc, ok := node.(*ast.CaseClause)
+				if !ok {
+					continue
+				}
+				_ = cc
+				for id, o := range pk.TypesInfo.Defs {
+					if o == nil && id.Name == obj.Name() && id.Name != "_" {
+						pos := pk.Fset.Position(id.Pos())
+						if pos.Filename == abs {
+							if _, seen := names[pos.Offset]; !seen && isTypeSwitchVar(pk.Syntax, id) {
+								offs = append(offs, pos.Offset)
+								names[pos.Offset] = id.Name
+							}
+						}
+					}
+				}
+			}
+		}
+		if len(offs) == 0 {
+			continue
+		}
+		src, err := os.ReadFile(abs)
+		if err != nil {
+			continue
+		}
+		sort.Sort(sort.Reverse(sort.IntSlice(offs)))
+		for _, off := range offs {
+			old := names[off]
+			src = append(src[:off:off], append([]byte("zl"+strings.ToUpper(old[:1])+old[1:]), src[off+len(old):]...)...)
+		}
+		keys, infra := runAll(map[string][]byte{abs: src})
+		switch {
+		case strings.Contains(infra, "load/type-check errors") || strings.Contains(infra, "cannot load"):
+			fmt.Printf("skip  renamelocals %-40s does not compile: %s\n", rel, infra[:min(len(infra), 200)])
+		case len(keys) == 0 && infra == "":
+			fmt.Printf("ok    renamelocals %-40s %d identifiers\n", rel, len(offs))
+		default:
+			bad++
+			fmt.Printf("ALARM renamelocals %-40s %v %s\n", rel, keys, infra)
+		}
+	}
+	return bad
+}
+
+// isTypeSwitchVar: id is the variable declared by `switch id := x.(type)`.
+func isTypeSwitchVar(files []*ast.File, id *ast.Ident) bool {
+	found := false
+	for _, f := range files {
+		if id.Pos() < f.Pos() || id.Pos() > f.End() {
+			continue
+		}
+		ast.Inspect(f, func(n ast.Node) bool {
+			if ts, ok := n.(*ast.TypeSwitchStmt); ok {
+				if as, ok := ts.Assign.(*ast.AssignStmt); ok && len(as.Lhs) == 1 && as.Lhs[0] == ast.Expr(id) {
+					found = true
+				}
+			}
+			return !found
+		})
+	}
+	return found
 }
